@@ -46,6 +46,9 @@ pub struct Scn {
     /// the server validates addresses with Retry (every client's second Initial carries the
     /// connection ID the Retry gave it - an empty one when the server uses zero-length CIDs)
     pub retry: bool,
+    /// the server's stateless reset for a connection reaches the client 1 ms after that client closed
+    /// it (a peer that lost its state): the connection drains early, while its close timer is running
+    pub reset_after_close: bool,
 }
 
 fn plan(len: usize) -> Plan {
@@ -86,6 +89,9 @@ pub fn build(base: Instant, s: &Scn, fates: BTreeMap<u64, Fate>) -> MW {
     if s.retry {
         w.nodes[SERVER].policy = crate::sim::AcceptPolicy::Retry;
     }
+    // connections that have drained keep getting their timers serviced, as by a driver that does not
+    // drop them at once; whatever they still emit is recorded
+    w.linger_dead = s.reset_after_close;
     let x = w.add_node(2, cfg.cid_len, cfg.cid_lifetime, None, |_| {});
     let y = w.add_node(3, cfg.cid_len, cfg.cid_lifetime, None, |_| {});
     let mut conns = vec![];
@@ -148,10 +154,25 @@ pub fn run(base: Instant, s: &Scn, devs: &Devs, alts: &[Fate], dump: bool) -> Ou
                     closed.push(*ci);
                     let (n, ch) = m.conns[*ci];
                     let now = m.w.now();
+                    let mut reset: Option<Vec<u8>> = None;
+                    let sseed = m.w.nodes[SERVER].seed;
                     if let Some(sl) = m.w.nodes[n].conns.get_mut(&ch) {
+                        if s.reset_after_close {
+                            let cid = sl.conn.verif_probe().rem_cid;
+                            if !cid.is_empty() {
+                                let tok = crate::sim::reset_token_for(sseed, &cid);
+                                let mut d: Vec<u8> = (0..30).map(|k| 0x40 | ((k * 7) as u8 & 0x3f)).collect();
+                                d.extend_from_slice(&tok);
+                                reset = Some(d);
+                            }
+                        }
                         sl.conn.close(now, VarInt::from_u32(5), bytes::Bytes::from_static(b"done"));
                     }
                     m.w.settle_conn(n, ch);
+                    if let Some(d) = reset {
+                        let (src, dst) = (m.w.nodes[SERVER].addr, m.w.nodes[n].addr);
+                        m.w.inject(src, dst, d, Duration::from_millis(1));
+                    }
                 }
             }
             let forgotten = s.fourth_when_forgotten && !closed.is_empty() && m.w.nodes[SERVER].ep.open_connections() < 3 && !m.w.nodes[SERVER].dead.is_empty();
@@ -159,7 +180,9 @@ pub fn run(base: Instant, s: &Scn, devs: &Devs, alts: &[Fate], dump: bool) -> Ou
                 let f = s.fourth_at.unwrap_or(u64::MAX);
                 if !fourth_done && (m.w.steps >= f || forgotten) {
                     fourth_done = true;
-                    let node = m.conns[2].0;
+                    // (with a reset after the close: on the endpoint whose connection was closed, so that
+                    // the new connection takes over the freed handle there)
+                    let node = if s.reset_after_close { closed.first().map_or(m.conns[2].0, |ci| m.conns[*ci].0) } else { m.conns[2].0 };
                     let cc = client_config(&m.cfg, m.keylog.clone(), 0xcf);
                     let ch = m.w.connect(node, SERVER, cc, StdApp::new(Side::Client, plan(LENS[3])));
                     m.w.settle_conn(node, ch);
@@ -369,6 +392,9 @@ pub fn run(base: Instant, s: &Scn, devs: &Devs, alts: &[Fate], dump: bool) -> Ou
                     }
                 }
             }
+            if let Some(o) = m.w.post_drain_output.first() {
+                viol.push(("drained-connection-still-emits".into(), format!("a connection that had reported Drained (its handle is free for the next connection) produced more output when its timers were serviced: {o} ({} items)", m.w.post_drain_output.len())));
+            }
             RESETS.fetch_add(resets_sent, std::sync::atomic::Ordering::Relaxed);
             viol.extend(reset_viol);
             viol.truncate(6);
@@ -379,7 +405,7 @@ pub fn run(base: Instant, s: &Scn, devs: &Devs, alts: &[Fate], dump: bool) -> Ou
 
 pub fn scenarios(thorough: bool) -> Vec<Scn> {
     let mut v = vec![];
-    let mk = |name: &str, cid_len: usize| Scn { name: name.into(), cid_len, cid_lifetime_ms: None, addr_changed: vec![], close: vec![], fourth_at: None, window: (0, 30), same_client_endpoint_twice: false, fourth_when_forgotten: false, long_delay_ms: None, damaged_first: false, retry: false };
+    let mk = |name: &str, cid_len: usize| Scn { name: name.into(), cid_len, cid_lifetime_ms: None, addr_changed: vec![], close: vec![], fourth_at: None, window: (0, 30), same_client_endpoint_twice: false, fourth_when_forgotten: false, long_delay_ms: None, damaged_first: false, retry: false, reset_after_close: false };
     for l in [8usize, 0, 1, 4, 20] {
         v.push(mk(&format!("cid{l}"), l));
     }
@@ -450,6 +476,16 @@ pub fn scenarios(thorough: bool) -> Vec<Scn> {
     s.fourth_at = Some(60);
     s.window = (24, 54);
     v.push(s);
+    // a closing connection is drained early by its peer's stateless reset; a new connection then
+    // takes over its handle while the old connection object is still being serviced
+    for (which, at) in [(0usize, 28u64), (1, 40)] {
+        let mut s = mk(&format!("close{which}@{at}+reset+fourth"), 8);
+        s.close = vec![(at, which)];
+        s.reset_after_close = true;
+        s.fourth_at = Some(at + 8);
+        s.window = (at.saturating_sub(4), at + 20);
+        v.push(s);
+    }
     let mut s = mk("cid4-close+fourth", 4);
     s.close = vec![(20, 0), (26, 1)];
     s.fourth_at = Some(70);
